@@ -323,6 +323,9 @@ impl Property for C13 {
     fn max_shrink_iters(&self) -> u32 {
         400
     }
+    fn fuzz_sequences(&self) -> Vec<(&'static str, usize)> {
+        vec![("/evs", 80)]
+    }
     fn run(&self, case: &Case13) -> Outcome {
         let mut out = Outcome::default();
         let cfg = hb_cfg(case.threshold, case.pool.clone());
